@@ -42,7 +42,9 @@ MANIFEST = {
             "what one call with visibility 'all' emits, each as often; acyclic closed diagrams) and C19_unique_cs (each exactly once under once_hyp on "
             "the C# view), C19_namespace_balanced_cs (the C# namespace functions are statement for statement the C++ ones; every C# template wraps its "
             "type between the two tags), C19_languages_source_shape (branch conditions, calls, signature, DeclareFunction / ParameterString, template "
-            "layouts, project-file block of both back ends pinned). Ties: real LanguageCsharp.GetOperationPerVisibility vs ops_of_cs / cs_line line by "
+            "layouts, project-file block of both back ends pinned). From the project file: C19_adaptor_cs_roundtrip / C19_files_cs_from_diagram / "
+            "C19_once_cs_from_diagram / C19_realised_cs_from_diagram (cdiagram_cs_of D = the objects read, rendered by the model of LanguageCsharp's type / name "
+            "helpers, tied to the real ones). Ties: real LanguageCsharp.GetOperationPerVisibility vs ops_of_cs / cs_line line by "
             "line on every class and visibility, generated C# file set vs files_all and vs expected_files_cs. Independent oracle for C#: a tokenizer "
             "over the generated .cs files (braces balanced, namespace chain opened / closed and named, 'public class|interface|enum|struct Name', every "
             "drawn operation and every operation of a realised interface present under its name as often as the drawn diagram says, bodies for class "
@@ -515,12 +517,18 @@ def adaptor_ties(ctx):
             ctx.tie_broken("correspondence LanguageCPP rendering helpers vs UmlBlob.type_and_name / default_format / container_type",
                            {"type": ty, "modifier": mod, "multiplicity": mu, "name": nm, "default": df, "real": real, "model": model})
         ctx.count("adaptor_rendering_cases")
+        real_cs = LanguageCsharp.LanguageCsharp().GetTypeAndNameFromMultiplicityAndModifier(anycls, ty, mod, mu, nm)
+        if [x.encode() for x in real_cs] != km.call("ub_type_and_name_cs", ty, mod, mu, nm):
+            ctx.tie_broken("correspondence LanguageCsharp.GetTypeAndNameFromMultiplicityAndModifier vs UmlBlob.type_and_name_cs",
+                           {"type": ty, "modifier": mod, "multiplicity": mu, "name": nm, "real": real_cs})
     for name in (b"TestClassDiagram", b"ProtocolStack"):
         real, cd, err = ub.real_load(vs.BLOB_XML, name)
         if real != km.call("ub_load", vs.db_v(db), name):
             ctx.tie_broken("correspondence vppclassdiagram.ExtractClassDiagram vs UmlBlob.load_cdiagram on the shipped project", {"diagram": name, "error": err})
         elif cd is not None and km.call("ub_adaptor", vs.db_v(db), name) != [ub.abstract_view(cd)]:
             ctx.tie_broken("UmlBlob.adaptor differs from the abstract diagram the harness computes from kojen's objects", {"diagram": name})
+        elif cd is not None and km.call("ub_adaptor_cs", vs.db_v(db), name) != [ub.abstract_view_cs(cd)]:
+            ctx.tie_broken("UmlBlob.adaptor_cs differs from the abstract diagram the harness computes from kojen's objects with LanguageCsharp", {"diagram": name})
         ctx.case(("adaptor-shipped", name))
     # malformed projects: a synthesised project with damaged blobs; exceptions must agree too
     for i in range(ctx.budget(40, 600)):
@@ -795,6 +803,8 @@ def adaptor_case(ctx, stack, cd, seed, meta=None):
                       dict(info, finding_key="uml-adaptor:roundtrip", finding_class="uml-adaptor"))
     if ctx.km is not None and ctx.km.call("ub_adaptor", vs.db_v(db), name) != [ub.abstract_view(cd2)]:
         ctx.tie_broken("UmlBlob.adaptor differs from the abstract diagram of the objects read back", info)
+    if ctx.km is not None and ctx.km.call("ub_adaptor_cs", vs.db_v(db), name) != [ub.abstract_view_cs(cd2)]:
+        ctx.tie_broken("UmlBlob.adaptor_cs differs from the abstract diagram (LanguageCsharp) of the objects read back", info)
     ctx.count("adaptor_synthesised_projects")
     return path, name, cd2
 
